@@ -22,6 +22,7 @@
    caller does not get a nil error in that case either. *)
 From Soy Require Import Model.Bytes Model.Num Model.Values Model.Outcome Model.Ast
   Model.Interp Spec.Writer Spec.Safety Proofs.InterpLogic Proofs.WriterProofs Proofs.WriterSafety.
+From Soy Require Import Model.JsWrite Proofs.JsWriteProofs.
 Open Scope N_scope.
 
 (* if the writer refuses any Write call of the fault-free render (the k-th call with k below
@@ -148,4 +149,36 @@ Proof. vm_compute. split; reflexivity. Qed.
 (* the last print on a dead writer: the witness of I4 is an error in the model of the repaired code *)
 Example ex_last_print_dead_writer :
   rr_outcome (render ex_cfg 10 ex_name 7 [(b "x", VStr (b "a"))] (Some 1%nat) None 100) = Err e_write.
+Proof. vm_compute. reflexivity. Qed.
+
+(* ================================================================== *)
+(* the JavaScript-side counterpart: soyjs.Write on a failing writer     *)
+(* ================================================================== *)
+(* soyjs.Write generates into memory and hands the caller's writer its pieces (the import block, the script) in
+   order.  [js_write] (Model/JsWrite.v) is that, AFTER the repair notes/pending/C12-js-write-errors.diff (each
+   Write call checked); the theorems hold for every list of pieces and every writer automaton.  Not a render in the
+   sense of the property's text: the harness records the pinned behaviour under the finding
+   js-write-drops-writer-errors. *)
+Theorem js_write_fault_surfaces :
+  forall pieces cl bl, refuses cl bl pieces -> fst (js_write pieces cl bl) = Err e_write.
+Proof. exact js_write_fault_surfaces_l. Qed.
+Print Assumptions js_write_fault_surfaces.
+
+Theorem js_accepted_is_prefix :
+  forall pieces cl bl, prefix_of (concat_b (snd (js_write pieces cl bl))) (concat_b pieces).
+Proof. exact js_accepted_is_prefix_l. Qed.
+Print Assumptions js_accepted_is_prefix.
+
+Theorem js_nil_means_all_written :
+  forall pieces cl bl, fst (js_write pieces cl bl) = Ok tt -> snd (js_write pieces cl bl) = pieces.
+Proof. exact js_nil_means_all_written_l. Qed.
+Print Assumptions js_nil_means_all_written.
+
+(* the pinned soyjs.Write (results of out.Write dropped) returns nil on a dead writer *)
+Theorem js_write_pinned_drops_errors :
+  exists pieces cl bl, refuses cl bl pieces /\ fst (js_write_pinned pieces cl bl) = Ok tt /\ snd (js_write_pinned pieces cl bl) = [].
+Proof. exact js_write_pinned_refuted. Qed.
+
+Example ex_js_second_piece_refused :
+  js_write [b "import x;"; b "var t = 1;"] (Some 1%nat) None = (Err e_write, [b "import x;"]).
 Proof. vm_compute. reflexivity. Qed.
